@@ -120,7 +120,7 @@ def get_paths(ctx: Ctx, entries: list[str] | None = None, gen: str = "compiler:C
                 # keep the cache directory small
                 d = os.path.dirname(disk)
                 files = sorted((os.path.join(d, x) for x in os.listdir(d) if x.endswith(".pkl")), key=os.path.getmtime)
-                for old in files[:-6]:
+                for old in files[:-24]:  # ~6 MB each; the scoreboard analyses ten variants at a time
                     os.remove(old)
             except Exception:
                 pass
